@@ -1,7 +1,10 @@
 #!/bin/bash
-# tools/run_seed.sh <Cxx> <seed dir with patch.diff> [tier]  : apply to /repo, run the check, undo.
-pid=$1; d=$2; tier=${3:-quick}
+# tools/run_seed.sh <Cxx> <seed dir with patch.diff> [tier] : run the check against a scratch worktree of /repo with the
+# seeded change applied (VERIF_REPO points the check at it); /repo itself is not touched.  The worktree is removed afterwards.
+pid=$1; d=$(realpath $2); tier=${3:-quick}
 cd /verif
-git -C /repo apply $d/patch.diff || exit 2
-./check $pid --tier $tier 2>&1 | grep -E "VIOLATION|KNOWN-FINDING|exit|^  " | head -12
-git -C /repo checkout -- .
+wt=$(mktemp -d /tmp/seedwt.XXXXXX)
+git -C /repo worktree add -q --detach $wt HEAD || exit 2
+git -C $wt apply $d/patch.diff || { git -C /repo worktree remove --force $wt; exit 2; }
+VERIF_REPO=$wt ./check $pid --tier $tier 2>&1 | grep -E "VIOLATION|KNOWN-FINDING|exit|^  " | head -12
+git -C /repo worktree remove --force $wt; git -C /repo worktree prune
